@@ -111,11 +111,11 @@ def e2e_rows(rng):
     return rows
 
 
-def e2e_pair(q, p, rows, declared="hour"):
+def e2e_pair(q, p, rows, declared="hour", mets=("ev.total", "ev.n")):
     """returns (routed?, routed_rows, base_rows) on the real implementation; `declared` = the granularity the time dimension declares (what a bare
     reference is truncated to) -- the column itself always has sub-hour resolution"""
     layer = build_layer(p, rows, declared)
-    kw = dict(metrics=["ev.total", "ev.n"], dimensions=["ev.ts__" + q])
+    kw = dict(metrics=list(mets), dimensions=["ev.ts__" + q])
     sql_r = layer.compile(use_preaggregations=True, **kw)
     sql_b = layer.compile(use_preaggregations=False, **kw)
     routed = "ev_preagg_r" in sql_r
@@ -251,6 +251,20 @@ def run(c):
                                     {"kind": "e2e", "q": q, "p": p, "declared": declared, "rows": rows, "routed_sql": sql_r, "differing_rows": diff})
                 if len(c.samples) < 4 and routed and q != p:
                     c.samples.append({"query_granularity": q, "rollup_granularity": p, "routed": routed, "rows_equal": rr == rb, "n_base_rows": len(rows), "n_result_rows": len(rb)})
+              # the same pair asked with ONE metric and with NO metric at all (the buckets alone): the granularity test does not depend on what is aggregated
+              for mets in ((), ("ev.n",)):
+                try:
+                    routed, rr, rb, sql_r = e2e_pair(q, p, rows, "hour", mets)
+                except Exception as e:
+                    c.violation("the query at %s with metrics %s on a %s rollup fails: %s" % (q, list(mets), p, str(e)[:150]), {"kind": "e2e", "q": q, "p": p, "declared": "hour", "mets": list(mets), "rows": rows})
+                    continue
+                e2e_cases += 1
+                if routed and rr != rb:
+                    diff = [x for x in rr if x not in rb][:3] + [x for x in rb if x not in rr][:3]
+                    c.violation("query at %s with metrics %s routed to a %s rollup returns different rows than the base table" % (q, list(mets), p),
+                                {"kind": "e2e", "q": q, "p": p, "declared": "hour", "mets": list(mets), "rows": rows, "routed_sql": sql_r, "differing_rows": diff})
+                if routed and not py_compatible(q, p):
+                    c.notes.append("the query at %s with metrics %s is routed to a %s rollup although _is_granularity_compatible refuses the pair" % (q, list(mets), p))
     # 5a. two granularities of the time dimension in one query (both orders): routed only if BOTH can be derived, and then with the same rows
     twos = 0
     rows2 = e2e_rows(c.rng)
@@ -329,7 +343,7 @@ def replay(path):
     body = json.load(open(path))
     r = body["replay"]
     if r.get("kind") == "e2e":
-        routed, rr, rb, sql = e2e_pair(r["q"], r["p"], [tuple(x) for x in r["rows"]], r.get("declared", "hour"))
+        routed, rr, rb, sql = e2e_pair(r["q"], r["p"], [tuple(x) for x in r["rows"]], r.get("declared", "hour"), tuple(r.get("mets", ("ev.total", "ev.n"))))
         print("routed:", routed, "rows equal:", rr == rb)
         print(sql)
         return 1 if routed and rr != rb else 0
